@@ -151,15 +151,29 @@ def frame_reader(repo, rd):
             for sub in ast.walk(s.value):
                 x = sl(sub)
                 if x and x[0] is not UNKNOWN and x[1] is not UNKNOWN and isinstance(x[0], int) and isinstance(x[1], int):
-                    if name == 'command' or 'split' in norm(s.value):
+                    vt = norm(s.value)
+                    role = {(4, 16): 'command', (16, 20): 'length', (20, 24): 'checksum'}.get(x)
+                    if role is None:
+                        # a slice at another position: by what is done with it
+                        role = 'command' if (name == 'command' or 'split' in vt or 'partition' in vt) else ('length' if ('unpack' in vt or 'from_bytes' in vt) else ('checksum' if name == 'checksum' else None))
+                    if role == 'command':
                         info['slices'].setdefault('command', x)
                         info['command_var'] = name
-                    elif 'unpack' in norm(s.value):
+                    elif role == 'length':
                         info['slices']['length'] = x
                         info['length_var'] = name
-                        fmt = repo.fold(s.value.value.args[0], rd.module) if isinstance(s.value, ast.Subscript) else UNKNOWN
+                        fmt = UNKNOWN
+                        v_ = s.value
+                        if isinstance(v_, ast.Subscript) and isinstance(v_.value, ast.Call) and 'unpack' in norm(v_.value.func):
+                            fmt = repo.fold(v_.value.args[0], rd.module)
+                        elif isinstance(v_, ast.Call) and norm(v_.func) == 'int.from_bytes' and len(v_.args) >= 1:
+                            order = repo.fold(v_.args[1], rd.module) if len(v_.args) > 1 else next((repo.fold(k.value, rd.module) for k in v_.keywords if k.arg == 'byteorder'), UNKNOWN)
+                            signed = next((repo.fold(k.value, rd.module) for k in v_.keywords if k.arg == 'signed'), False)
+                            width = {1: 'B', 2: 'H', 4: 'I', 8: 'Q'}.get(x[1] - x[0])
+                            if order in ('little', 'big') and signed in (True, False) and width:
+                                fmt = ('<' if order == 'little' else '>') + (width.lower() if signed else width)
                         info['length_fmt'] = fmt.decode() if isinstance(fmt, bytes) else fmt
-                    elif x == (20, 24) or name == 'checksum':
+                    elif role == 'checksum':
                         info['slices']['checksum'] = x
                         info['checksum_var'] = name
             if isinstance(s.value, ast.Subscript) and norm(s.value.value) == buf and isinstance(s.value.slice, ast.Slice) and name not in (info.get('checksum_var'),):
